@@ -356,7 +356,8 @@ Proof.
            (map_ok_lawful T ek U2 M2 uinv2 K2) capN vec_based os).
 Qed.
 
-(* the three pairs of the task, spelled out; every deterministic history is answered identically *)
+(* the three pairs of the task, spelled out; every deterministic history (Refine.det_op: no `==`; SSZ decoding of
+   inputs below 4 GiB included) is answered identically *)
 Theorem maps_unobservable_three :
   forall (T : Type) (ek : ekind T), kind_ok T ek ->
   forall (capN : N) (vec_based : bool) (os : list (@op T)),
